@@ -81,7 +81,7 @@ EXPECTED_PROBES = ("gen_switch", "gen_close", "load_between_next", "direct_parse
                    "headers_only", "shared_definition_2plus", "socket_source", "file_source", "two_definitions",
                    "source_fault_eio", "source_fault_rst", "source_fault_stall_timeout", "direct_parse_same_raw_object", "segment_group",
                    "unfinished_segment_group", "packet_inside_open_group", "duplicate_unit", "duplicate_unit_across_generators",
-                   "stuck_counter", "non_default_root_container", "long_stream")
+                   "stuck_counter", "non_default_root_container", "long_stream", "bad_packet_kills_generator")
 # (probe warnings_differ_from_alone is expected to stay at 0 on the unchanged tree; it is informational)
 
 _packets = factory.import_library()
@@ -91,7 +91,7 @@ from space_packet_parser.xtce.definitions import XtcePacketDefinition  # noqa: E
 
 
 _NOTHING = object()
-CAT_LETTER = {"leaf": "R", "long": "L", "short": "S", "unknown": "U", "ambiguous": "A", "dead_sub": "D", "group": "G", "open_group": "g", "foreign_group": "f"}
+CAT_LETTER = {"leaf": "R", "long": "L", "short": "S", "unknown": "U", "ambiguous": "A", "dead_sub": "D", "group": "G", "open_group": "g", "foreign_group": "f", "raises": "X"}
 
 
 def load(xml, rd):
@@ -203,6 +203,10 @@ def run(ch, render=False):
     n_gens = ch.weighted([(2, 2), (2, 1), (2, 3), (1, 4), (1, 6)], "n_gens")
     enabled = {f: ch.chance(2, 3, "en_" + f) for f in ("gen_close", "load_between_next", "direct_parse_between")}
     enabled["source_fault"] = ch.chance(1, 3, "en_source_fault")
+    # failure isolation: ONE generator may carry, as its last unit, a packet on which the decoder raises (that generator
+    # dies on it - the statement says nothing about that); every other generator, and every later use of the shared
+    # definition, must not notice
+    poison_gi = ch.draw(n_gens, "poison_gen") if ch.chance(1, 3, "en_poison") else None
     gens = []
     other_xml = None
     for gi in range(n_gens):
@@ -329,13 +333,15 @@ def run(ch, render=False):
                 inject = ch.weighted([(3, "none"), (1, "eio")], "inject")
             elif srckind == "socket":
                 inject = ch.weighted([(3, "none"), (1, "rst"), (1, "stall_timeout")], "inject")
+        if gi == poison_gi:
+            inject = "none"
         gens.append(dict(di=di, opts=opts, k=k, rs=rs, cands=cands, src=srckind, inject=inject, raws=None))
 
     # ---- child 1 (pristine fork): classify the candidates; anything whose stand-alone parse raises is replaced ----------
     def classify():
         res = []
         rep_ = 0
-        for g in gens:
+        for gi_, g in enumerate(gens):
             pk_, ct_, ad_ = [], [], []
             for (cat, p, base, fallback) in g["cands"]:
                 if cat == "long":
@@ -348,6 +354,11 @@ def run(ch, render=False):
                     # (also for a group copied from another generator: what matters is how THIS generator will treat it)
                     copts.update({o: v for o, v in g["opts"].items() if o in ("combine_segmented_packets", "secondary_header_bytes")})
                 r, e = alone(oracle_a[g["di"]], p, 0, copts)
+                if e is not None and gi_ == poison_gi and not g["opts"].get("ccsds_headers_only"):
+                    pk_.append(p)
+                    ct_.append("raises")
+                    ad_.append(None)
+                    break                    # the raising unit is this generator's last one
                 if e is not None:
                     rep_ += 1
                     p, cat = fallback, "unknown"
@@ -403,7 +414,7 @@ def run(ch, render=False):
             out.fail("alone_parse_depends_on_history",
                      f"parsing packet {j} of a stream alone on a fresh generator gives different results depending on which "
                      f"other packets were parsed before in the same process (category {g['cats'][j]}, options {g['opts']})")
-    before = [(xf.fingerprint(d), serial(d)) for d in defs]
+    before = [(xf.fingerprint(d, top=False), serial(d)) for d in defs]
     shared = {}
     for g in gens:
         shared[g["di"]] = shared.get(g["di"], 0) + 1
@@ -506,7 +517,7 @@ def run(ch, render=False):
                 if act == "direct_parse_between":
                     w.fault("direct_parse_between")
                     w.ev(f"gen{gi}", "direct_parse")
-                    singles = [i_ for i_, u_ in enumerate(g["pkts"]) if isinstance(u_, bytes)]
+                    singles = [i_ for i_, u_ in enumerate(g["pkts"]) if isinstance(u_, bytes) and g["cats"][i_] != "raises"]
                     if singles:
                         pi = singles[ch.draw(len(singles), "dp_which")]
                         # either from plain bytes, or from the RawPacketData object the public framer yields for this
@@ -564,6 +575,12 @@ def run(ch, render=False):
                             g["state"] = "failed"
                             w.fault("source_fault_" + g["inject"])
                             w.ev(f"gen{gi}", "io_error", type(e).__name__)
+                        elif g["cats"] and g["cats"][-1] == "raises" and g["exp"][-1][0] == "RAISES" and \
+                                g["exp"][-1][1].split(":")[0] == type(e).__name__:
+                            # the decoder raised on this generator's bad packet, as it does when that packet is parsed alone
+                            g["state"] = "poisoned"
+                            w.fault("bad_packet_kills_generator")
+                            w.ev(f"gen{gi}", "died", type(e).__name__)
                         else:
                             err = ("exception", f"{type(e).__name__}: {e}", gi)
                 if item is not _NOTHING:
@@ -602,7 +619,11 @@ def run(ch, render=False):
             faulted = g["inject"] != "none" and (
                 (g.get("sock") is not None and (g["sock"].raised is not None or g["inject"] in ("rst", "stall_timeout")))
                 or (g.get("raw") is not None and g["raw"].raised is not None))
-            if g["state"] == "done" and not faulted:
+            if g["cats"] and g["cats"][-1] == "raises" and g["state"] in ("poisoned", "done"):
+                # everything before the bad packet was yielded; what a generator that does not die makes of the bad packet
+                # itself is not judged
+                ok_items = got[:len(exp_items)] == exp_items
+            elif g["state"] == "done" and not faulted:
                 ok_items = got == exp_items
             else:
                 # abandoned, failed with the injected error, or ended gracefully although its own source had failed / was cut:
@@ -618,7 +639,9 @@ def run(ch, render=False):
                          f"{describe(gi)}: item {j} is {str(gj)[:300]} but parsing that packet alone gives {str(ej)[:300]} "
                          f"({len(got)} items observed, {len(exp_items)} expected, generator {g['state']})")
                 break
-            if g["state"] == "done" and not faulted:
+            if g["cats"] and g["cats"][-1] == "raises":
+                ok_w = g["warns"][:len(exp_warns)] == exp_warns[:len(g["warns"])]
+            elif g["state"] == "done" and not faulted:
                 ok_w = g["warns"] == exp_warns
             elif g["state"] == "failed" or faulted:
                 # the failing step may have handled (and warned about) skipped packets before the error surfaced
@@ -635,7 +658,7 @@ def run(ch, render=False):
                 # is recorded as a probe and never as a violation
                 w.probe("warnings_differ_from_alone")
             # by construction
-            if g["state"] == "done" and not faulted and not g["opts"].get("ccsds_headers_only"):
+            if g["state"] == "done" and not faulted and not g["opts"].get("ccsds_headers_only") and "raises" not in g["cats"]:
                 doc = docs[g["di"]]
                 pos = 0
                 for pi, (p, cat) in enumerate(zip(g["pkts"], g["cats"])):
@@ -650,7 +673,7 @@ def run(ch, render=False):
                             hv = factory.header_tuple(p)
                             good = (len(mine) == 1 and mine[0][0] == "ERR" and mine[0][2] is not None and
                                     mine[0][2][0] == "PKT" and
-                                    [v[1][1] for v in mine[0][2][1][:7]] == [repr(x) for x in hv])
+                                    [v[1][4] for v in mine[0][2][1][:7]] == list(hv))
                             if not good:
                                 out.fail("unrecognized_not_reported",
                                          f"{describe(gi)}: packet {pi} ({cat}) must appear as one error object carrying the seven "
@@ -688,7 +711,7 @@ def run(ch, render=False):
                 break
     if out.violation is None:
         for i, d in enumerate(defs):
-            after = (xf.fingerprint(d), serial(d))
+            after = (xf.fingerprint(d, top=False), serial(d))
             if after != before[i]:
                 out.fail("definition_modified", f"definition {i} is not the same after parsing as before "
                                                 f"({'fingerprint' if after[0] != before[i][0] else 'serialisation'} differs)")
